@@ -80,10 +80,12 @@ class Local(Backend):
 
     @backoff_on_oserror
     def list_files(self, prefix=''):
-        path_length = len(str(self.path))
         # pathlib strips the trailing slash from paths; we don't want that here
         prefix_dirname, prefix_basename = os.path.split(prefix)
         absolute_dirname = self.path / prefix_dirname
+        # Entry paths start with the scanned directory however the repository
+        # path is spelled ('.', '', './x'), so names are sliced relative to it
+        scanned_length = len(os.path.join(absolute_dirname, ''))
 
         try:
             scandir = os.scandir(absolute_dirname)
@@ -112,8 +114,8 @@ class Local(Backend):
 
                     # NOTE: Anything from the standard library seems
                     # like an overkill here
-                    path = path.replace(os.sep, '/')
-                    yield path[path_length + 1 :]
+                    path = path[scanned_length:].replace(os.sep, '/')
+                    yield f'{prefix_dirname}/{path}' if prefix_dirname else path
 
     @backoff_on_oserror
     def delete(self, name):
